@@ -159,6 +159,10 @@ func (r *stateResolver) addConflicted(events []PDU) { // nolint: gocyclo
 
 // Add an event to the resolved auth events.
 func (r *stateResolver) addAuthEvent(event PDU) {
+	if event.StateKey() == nil {
+		// Only state events can be auth events; the list may come from another server.
+		return
+	}
 	if event.RoomID().String() != "" && r.roomID == "" {
 		r.roomID = event.RoomID().String()
 	}
